@@ -191,75 +191,73 @@ def by_decode_keys(ref, sname, v, d0, opts):
 DOCUMENTED = ("MissingField", "InvalidFieldValue", "ExtraKeysError", "MissingDiscriminatorError", "SuitableVariantNotFoundError")
 
 
-def judge(rec, fam, ref, mexc, S, sname, label, d, exp, got, forbid):
-    kind = label.split(":")[0]
-    facts = {"fault": kind, "forbid_extra_keys": forbid, "input_is_mapping": hasattr(d, "get")}
-    det = lambda **kw: dict({"schema": fam.to_json(), "fault": label, "input": common.short(d, 500)}, **kw)
+def classify(ref, mexc, S, sname, exp, got):
+    """compare an observed outcome with a reference outcome.
+    returns (agree_counter | None, violation_signature | None, extra_detail)."""
     if got[0] == "ok":
         if exp[0] == "ok":
             if deep_eq(got[1], exp[1], key_order=False) and ref.conforms(("dc", sname), got[1]):
-                rec.count("agree_ok")
-            elif not ref.conforms(("dc", sname), exp[1]):
-                rec.count("stdlib_constructor_quirk")
-            else:
-                rec.violation("result-differs-from-reference", det(observed=common.short(got[1], 400), expected=common.short(exp[1], 400)),
-                              dict(facts, explained_by=explained_by(fam, sname, d, got)))
-        else:
-            rec.violation(f"returned-instance-for-invalid-input:{type(exp[1]).__name__}",
-                          det(observed=common.short(got[1], 400), reference=str(exp[1])[:300]),
-                          dict(facts, explained_by=explained_by(fam, sname, d, got)))
-        return
+                return "agree_ok", None, {}
+            if not ref.conforms(("dc", sname), exp[1]):
+                return "stdlib_constructor_quirk", None, {}
+            return None, "result-differs-from-reference", {"observed": common.short(got[1], 400), "expected": common.short(exp[1], 400)}
+        return None, f"returned-instance-for-invalid-input:{type(exp[1]).__name__}", {
+            "observed": common.short(got[1], 400), "reference": str(exp[1])[:300]}
     ex = got[1]
     ename = type(ex).__name__
+    err = f"{ename}: {ex}"[:300]
     if exp[0] == "ok":
-        rec.violation(f"raised-for-valid-input:{ename}", det(error=f"{ename}: {ex}"[:300], expected=common.short(exp[1], 300)), dict(facts, exc=ename))
-        return
+        return None, f"raised-for-valid-input:{ename}", {"error": err, "expected": common.short(exp[1], 300)}
     e = exp[1]
-    # both raise: class and attributes
     if isinstance(e, RefNotMapping) and e.args and e.args[0] == sname:
         if type(ex) is ValueError:
-            rec.count("agree_not_mapping")
-        else:
-            rec.violation(f"non-mapping-argument:{ename}", det(error=f"{ename}: {ex}"[:300]), dict(facts, exc=ename))
-        return
+            return "agree_not_mapping", None, {}
+        return None, f"non-mapping-argument:{ename}", {"error": err}
     if isinstance(e, RefMissing) and e.cls == sname:
         if type(ex) is mexc.MissingField and ex.field_name == e.field and ex.holder_class is S:
-            rec.count("agree_missing")
-        else:
-            rec.violation(f"expected-MissingField:{ename}", det(error=f"{ename}: {ex}"[:300], expected_field=e.field,
-                          observed_field=getattr(ex, "field_name", None)), dict(facts, exc=ename))
-        return
+            return "agree_missing", None, {}
+        return None, f"expected-MissingField:{ename}", {"error": err, "expected_field": e.field,
+                                                        "observed_field": getattr(ex, "field_name", None)}
     if isinstance(e, RefExtra) and e.cls == sname:
         if type(ex) is mexc.ExtraKeysError and set(ex.extra_keys) == e.keys and ex.target_type is S:
-            rec.count("agree_extra")
-        else:
-            rec.violation(f"expected-ExtraKeysError:{ename}", det(error=f"{ename}: {ex}"[:300], expected_keys=sorted(map(str, e.keys)),
-                          observed_keys=sorted(map(str, getattr(ex, "extra_keys", []) or []))), dict(facts, exc=ename))
-        return
+            return "agree_extra", None, {}
+        return None, f"expected-ExtraKeysError:{ename}", {"error": err, "expected_keys": sorted(map(str, e.keys)),
+                                                          "observed_keys": sorted(map(str, getattr(ex, "extra_keys", []) or []))}
     if isinstance(e, RefInvalid) and e.cls == sname:
         if (type(ex) is mexc.InvalidFieldValue and ex.field_name == e.field and ex.holder_class is S
                 and ex.field_value is e.value):
-            rec.count("agree_invalid")
-        else:
-            rec.violation(f"expected-InvalidFieldValue:{ename}",
-                          det(error=f"{ename}: {ex}"[:300], expected_field=e.field, observed_field=getattr(ex, "field_name", None),
-                              value_identity=getattr(ex, "field_value", None) is e.value,
-                              holder_ok=getattr(ex, "holder_class", None) is S), dict(facts, exc=ename))
-        return
-    # reference failed for another reason (e.g. constructor TypeError at cls(**kw)): any documented exception is fine
+            return "agree_invalid", None, {}
+        return None, f"expected-InvalidFieldValue:{ename}", {
+            "error": err, "expected_field": e.field, "observed_field": getattr(ex, "field_name", None),
+            "value_identity": getattr(ex, "field_value", None) is e.value,
+            "holder_ok": getattr(ex, "holder_class", None) is S}
+    # the reference failed for another reason (e.g. the dataclass constructor itself): any documented exception is fine
     if ename in DOCUMENTED or type(ex) is ValueError:
-        rec.count("agree_other_raise")
-    else:
-        rec.violation(f"undocumented-exception:{ename}", det(error=f"{ename}: {ex}"[:300], reference=str(e)[:200]), dict(facts, exc=ename))
+        return "agree_other_raise", None, {}
+    return None, f"undocumented-exception:{ename}", {"error": err, "reference": str(e)[:200]}
 
 
-def explained_by(fam, sname, d, got):
+def judge(rec, fam, ref, mexc, S, sname, label, d, exp, got, forbid):
+    kind = label.split(":")[0]
+    agree, sig, extra = classify(ref, mexc, S, sname, exp, got)
+    if agree:
+        rec.count(agree)
+        return
+    facts = {"fault": kind, "forbid_extra_keys": forbid, "input_is_mapping": hasattr(d, "get"),
+             "exc": type(got[1]).__name__ if got[0] == "raise" else None,
+             "explained_by": explained_by(fam, mexc, S, sname, d, got)}
+    rec.violation(sig, dict({"schema": fam.to_json(), "fault": label, "input": common.short(d, 500)}, **extra), facts)
+
+
+def explained_by(fam, mexc, S, sname, d, got):
+    """is the observation exactly what a reference with ONE recorded finding's mechanism enabled predicts?"""
     for q in ("F02", "F24"):
         qref = Ref(fam, quirks=(q,))
         try:
             e = ("ok", qref.dec(("dc", sname), d, Ctx()))
         except RefError as ex:
             e = ("raise", ex)
-        if e[0] == "ok" and got[0] == "ok" and deep_eq(got[1], e[1], key_order=False):
+        agree, sig, _ = classify(qref, mexc, S, sname, e, got)
+        if agree:
             return q
     return None
